@@ -471,10 +471,14 @@ func readsRegistry(p *Program, g *ssa.Function, elem string) bool {
 	}
 	for _, f := range fs {
 		allInstrs(f, func(in ssa.Instruction) {
-			if rg, ok := in.(*ssa.Range); ok {
-				if mt, ok := rg.X.Type().Underlying().(*types.Map); ok {
-					if n := namedOf(mt.Elem()); n != nil && n.Obj().Name() == elem {
-						found = true
+			// touches the registry map at all (range, look-up, len): an initialising function that writes
+			// the empty part never does
+			if fa, ok := in.(*ssa.FieldAddr); ok {
+				if fv, _ := fieldOfAddr(fa); fv != nil {
+					if mt, ok := fv.Type().Underlying().(*types.Map); ok {
+						if n := namedOf(mt.Elem()); n != nil && n.Obj().Name() == elem {
+							found = true
+						}
 					}
 				}
 			}
